@@ -7,6 +7,7 @@ From Verif.Base Require Import Prelude.
 From Verif.Spec Require Import C19.
 From Verif.Model Require Import Sessions.
 From Verif.Proofs Require Import Sessions SessionsSpec.
+From Verif.Gen Require SessionsGen.
 Open Scope Z_scope.
 
 Section C19.
@@ -129,3 +130,14 @@ Example C19_nonvacuous :
 Proof.
   split; [exact Z.eqb_eq|]. split; [exact Nat2Z.inj|]. repeat split; reflexivity.
 Qed.
+
+(** The expiry test the MODEL uses is the filter of cleanup_expired's list
+    comprehension as it stands in the source (Gen/SessionsGen.v, regenerated on
+    every run); for ALL integers it is "idle time strictly greater than the
+    limit" - the boundary [now - last = max_age] stays.  A changed comparison or
+    operand breaks this proof; a wrapped conversion (int(...), round(...)) is
+    outside the translator's grammar and fails closed. *)
+Theorem C19_expiry_test_is_the_sources : forall now last created max_age,
+  SessionsGen.expired_src now last created max_age = (now - last >? max_age).
+Proof. exact expired_src_is_spec. Qed.
+Print Assumptions C19_expiry_test_is_the_sources.
